@@ -115,7 +115,7 @@ func main() {
 		"item sizes are >= 1")
 	r.MinShapes(30)
 
-	cases := r.N(4000, 60000)
+	cases := r.N(2500, 60000)
 	opsPerCase := r.N(250, 500)
 
 	r.Parallel(cases, func(c *vk.Case) {
@@ -236,9 +236,7 @@ func main() {
 				_, ok := cache.Get([]byte(k))
 				trace = append(trace, fmt.Sprintf("%d Get(%s) -> %v", step, k, ok))
 				r.Count("op_get", 1)
-				if present[k] && !ok {
-					// reported below by the immune-evicted check
-				}
+				// (a marked and present key that is not found is reported below by the immune-evicted check)
 			default: // HasOrAdd / Put
 				size := 1
 				switch sizeMode {
